@@ -35,6 +35,10 @@ def run(ctx):
     for fk0 in ("BlsSignatureCore::core_verify", "BlsSignatureCore::core_aggregate_verify"):
         R.check_result_guard(ctx, "E4.keyvalidate", P, fk0, "is_identity", ("param", "sig"))
     R.check_result_guard(ctx, "E4.keyvalidate", P, "BlsSignatureCore::core_verify", "is_identity", ("param", "pk"))
+    # 0b. the verdict depends on the message through its hash only
+    from . import flow as F_
+
+    F_.check_message_blind_control(ctx, "E6.msg-blind", P, ["Signature<C>::verify", "PublicKeyShare<C>::verify", "SignatureShare<C>::verify", "MultiSignature<C>::verify", "BlsSignatureCore::core_verify"])
     # 1. accept only through the pairing test
     for fk in ("BlsSignatureCore::core_verify", "BlsSignatureCore::core_aggregate_verify"):
         f = ctx.need_fn("E4.pairing", fk)
